@@ -175,7 +175,8 @@ def r_programs():
 
 
 def rounds_task(task):
-    src, info = task
+    src, info = task[:2]
+    periods, n_rounds = (task[2], task[3]) if len(task) > 2 else (PERIODS, ROUNDS)
     res = {"programs": 0, "drives": 0, "events": 0, "max_pops": 0, "drives_reaching_a_repeated_state": 0, "viol": []}
     try:
         st0 = v2x.init_state(src)
@@ -185,7 +186,7 @@ def rounds_task(task):
     res["programs"] = 1
     n_elements = sum(len(c.elements) for c in st0.flow_configs.values())
     budget = 50 * (n_elements + 10)
-    for period in PERIODS:
+    for period in periods:
         st = v2x.copy_state(st0)
         rp = {"engine": "C10-R", "prop": "C10", "source": src, "period": list(period), "info": info}
         uid_n = v2x.UIDS.n
@@ -197,7 +198,7 @@ def rounds_task(task):
             continue
         res["drives"] += 1
         costs, live, keys, bad = [], [], [], None
-        for r in range(ROUNDS):
+        for r in range(n_rounds):
             row = []
             for name in period:
                 try:
@@ -577,7 +578,13 @@ def run(rep, tier):
         for sig, what, info in r["viol"]:
             rep.violation(sig, what, info)
     rr = {"programs": 0, "drives": 0, "events": 0, "max_pops": 0, "drives_reaching_a_repeated_state": 0}
-    for r in par.pmap(rounds_task, list(r_programs())):
+    if tier == "quick":
+        rts = list(r_programs())
+    else:  # every period of length <= 3 over {E1, E2, X}, more rounds
+        allp = [p for n in (1, 2, 3) for p in itertools.product(("E1", "E2", "X"), repeat=n)]
+        rts = [(src, info, allp, 14) for src, info in r_programs()]
+    rep.set("rounds_periods", len(PERIODS) if tier == "quick" else len(allp))
+    for r in par.pmap(rounds_task, rts):
         for k in rr:
             rr[k] = max(rr[k], r[k]) if k == "max_pops" else rr[k] + r[k]
         for sig, what, info in r["viol"]:
